@@ -37,7 +37,7 @@ Definition step_gate (u : url) (o : op) (u' : url) : Prop :=
       /\ (has_authority_b u = false -> path_start u = scheme_end u + 1)
       /\ (has_authority_b u = true -> hi_of_host h = HI_None -> port u = None)
   | OSetPath p =>
-      (* outside F-C02-3 ('?' / '#' into an opaque path) and, by path_gate, F-C02-8 / F-C03-5 / F-C06-6 *)
+      (* outside F-C02-3 ('?' / '#' into an opaque path) and, by path_gate, F-C02-8 / F-C03-5 *)
       usv_list p /\ auth_end_ok u /\ (is_opaque_b u = true -> forallb no_qh p = true) /\ path_gate u u'
   | OPathSegments _ | OQHost _ | OQHostname _ | OQPort _ | OQPathname _ => False   (* step not proved *)
   end.
